@@ -13,7 +13,8 @@ SHARDED = True
 def cat_values():
     x, y, z = cat.Ob('x'), cat.Ob('y'), cat.Ob(3)
     f, g, h = cat.Box('f', x, y), cat.Box('g', y, z, data=[1, {'a': 2}]), cat.Box('f', x, y, data=7)
-    vals = [x, y, z, cat.Ob('x'), f, g, h, f.dagger(), g.dagger(), cat.Box('f', x, y), cat.Id(x), cat.Id(y),
+    falsy = [cat.Box('f', x, y, data=d) for d in (0, [], {}, ())]   # pairwise unequal falsy payloads (0 == 0.0 == False are outside the repr-faithful precondition)
+    vals = falsy + [x, y, z, cat.Ob('x'), f, g, h, f.dagger(), g.dagger(), cat.Box('f', x, y), cat.Id(x), cat.Id(y),
             f >> g, cat.Arrow(x, y, [f]), cat.Arrow(x, z, [f, g]), f >> f.dagger(), (f >> g).dagger(),
             cat.Id(x) >> f, f + h, cat.Sum([f, h]), cat.Sum([h, f]), cat.Sum([], x, y), cat.Sum([f]),
             cat.Box('f', y, x), f.dagger().dagger()]
@@ -26,7 +27,8 @@ def monoidal_values():
     x, y = Ty('x'), Ty('y')
     f, g, s = Box('f', x, y @ y), Box('g', y, x, data=(1, 2)), Box('s', Ty(), Ty())
     D = list(common.gen_diagrams([Ty(), x], [f, g, s, g.dagger(), Swap(x, y)], 2))
-    vals = [Ty(), x, y, x @ y, Ty('x', 'y'), Ty(1), PRO(2), PRO(0), Ty(1, 1), f, g, s, f.dagger(), Swap(x, y), Swap(y, x),
+    falsy = [Box('f', x, y @ y, data=d) for d in (0, [], ())] + [Box('f', x, y @ y, data=0).dagger()]
+    vals = falsy + [Ty(), x, y, x @ y, Ty('x', 'y'), Ty(1), PRO(2), PRO(0), Ty(1, 1), f, g, s, f.dagger(), Swap(x, y), Swap(y, x),
             Box('f', x, y @ y), Id(x), Id(Ty()), Id(x @ y), f @ g, f >> g @ g, Diagram(x, y @ y, [f], [0]),
             f + f, Sum([f]), Sum([], x, y), f @ s, s @ f] + D[:40]
     ns = {'Ty': Ty, 'Box': Box, 'Id': Id, 'Diagram': Diagram, 'Swap': Swap, 'Sum': Sum, 'PRO': PRO, 'Ob': cat.Ob}
@@ -37,7 +39,8 @@ def rigid_values():
     from discopy.rigid import Ty, Ob, Box, Id, Diagram, Cup, Cap, Swap, PRO
     x, y = Ty('x'), Ty('y')
     f = Box('f', x @ y.l, y.r.r)
-    vals = [Ob('x'), Ob('x', z=1), Ob('x', z=-2), cat.Ob('x'), x, x.l, x.r, x.l.r, x.r.r, x @ y.l, Ty(Ob('x', z=1), 'y'),
+    falsy = [Box('f', x @ y.l, y.r.r, data=d) for d in (0, [])]
+    vals = falsy + [Ob('x'), Ob('x', z=1), Ob('x', z=-2), cat.Ob('x'), x, x.l, x.r, x.l.r, x.r.r, x @ y.l, Ty(Ob('x', z=1), 'y'),
             f, f.dagger(), Box('f', x @ y.l, y.r.r), Cup(x, x.r), Cap(x.r, x), Cup(x.l, x), Cap(x, x.l), Cup(x, x.r).dagger(),
             Swap(x, y.l), Id(x.l), Id(Ty()), f @ Id(x.r), Cap(x, x.l) @ Id(x) >> Id(x) @ Cup(x.l, x),
             Diagram(x @ y.l, y.r.r, [f], [0]), Id(x).transpose(), PRO(2), PRO(2).l]
